@@ -7,7 +7,7 @@ import tempfile
 import numpy as np
 from hypothesis import strategies as st
 
-from ..core import Machine
+from ..core import Machine, Violation
 
 # HOME is redirected *before* cherab.openadas is imported: the default repository path is computed at
 # import time, so any write that forgets the repository_path argument lands in this scratch HOME.
@@ -532,6 +532,10 @@ class Repo:
         if fam == "beam_cx":
             lst = R.get_beam_cx_rates(sp[key[1]], sp[key[2]], key[3], key[4], p)
             got = [r for m, r in lst if m == key[5]]
+            if len(lst) == 0:
+                # a transition that was never written must raise RuntimeError, not come back as "no metastables"
+                self.ctx.fail("absent:beam_cx" if key not in self.model else "read:beam_cx",
+                              "get_beam_cx_rates returned an empty list for %r instead of %s" % (key, "raising RuntimeError" if key not in self.model else "the stored rates"))
             if len(got) == 0:
                 raise RuntimeError("metastable %r not among those stored for the transition" % (key[5],))
             if len(got) != 1:
@@ -551,6 +555,8 @@ class Repo:
             got = self._read(key)
         except RuntimeError as e:
             self.ctx.fail("read:" + key[0], "key %r was written but reading it raises RuntimeError: %s" % (key, e))
+        except Violation:
+            raise
         except Exception as e:  # noqa
             self.ctx.fail("read:" + key[0], "reading %r raised %s: %s" % (key, type(e).__name__, e))
         for k, w in want.items():
@@ -566,6 +572,8 @@ class Repo:
             got = self._read(key)
         except RuntimeError:
             return
+        except Violation:
+            raise
         except Exception as e:  # noqa
             self.ctx.fail("absent:" + key[0], "reading never-written key %r raised %s instead of RuntimeError: %s" % (key, type(e).__name__, e))
         self.ctx.fail("absent:" + key[0], "never-written key %r is readable: %r" % (key, _brief(got)))
